@@ -7,6 +7,7 @@ import time
 
 from .. import common as C
 from .. import proj as P
+from .. import corecheck as K
 from .. import scancheck as S
 
 RUNTIME_FAULT_WORDS = ("runtime error", "nil pointer", "index out of range", "slice bounds", "invalid memory address",
@@ -78,6 +79,66 @@ def hostile_projects(rng, files, quick):
     return out
 
 
+def slot_matrix():
+    """every schema slot x every kind of referenced user type (incl. undefined, regex, any, empty, enum-as-type, recursive)"""
+    J = "JSIGHT 0.3\n"
+    types = {
+        "obj": 'TYPE @t\n  {"id": 1}\n', "scalar": "TYPE @t\n  12\n", "array": "TYPE @t\n  [1]\n", "regex": "TYPE @t regex\n  /ab+/\n",
+        "any": "TYPE @t any\n", "empty": "TYPE @t empty\n", "undefined": "", "enum": "ENUM @t\n  [1]\n",
+        "rec": 'TYPE @t\n  {"id": @t}\n', "ref": 'TYPE @t\n  @u\nTYPE @u\n  {"id": 1}\n', "refregex": "TYPE @t\n  @u\nTYPE @u regex\n  /a/\n",
+        "or": 'TYPE @t\n  @u | @v\nTYPE @u\n  {"id": 1}\nTYPE @v\n  {"id": 2}\n', "allof": 'TYPE @t\n  { // {allOf: "@u"}\n  }\nTYPE @u\n  {"id": 1}\n',
+        "allofregex": 'TYPE @t\n  { // {allOf: "@u"}\n  }\nTYPE @u regex\n  /a/\n', "nullable": 'TYPE @t\n  {"id": 1} // {nullable: true}\n',
+    }
+    refs = ["@t", "[@t]", "@t | @t", '{ // {allOf: "@t"}\n      "k": 1\n    }', '{"id": @t}', '{"id": 1 // {type: "@t"}\n    }', '{"id": 1 // {enum: @t}\n    }',
+            '{"id": 1 // {or: ["@t", "integer"]}\n    }', '{"@t": 1}', "@t // {optional: true}"]
+    slots = [
+        "URL /x/{id}\n  Path\n    %s\n  GET\n    200 any\n", "GET /x/{id}\n  Path\n    %s\n  200 any\n", "GET /x\n  Query\n    %s\n  200 any\n",
+        "GET /x\n  Query q=1 htmlFormEncoded\n    %s\n  200 any\n", "POST /x\n  Request\n    %s\n  200 any\n", "POST /x\n  Request\n    Body\n      %s\n  200 any\n",
+        "POST /x\n  Request\n    Headers\n      %s\n    Body any\n  200 any\n", "GET /x\n  200\n    %s\n", "GET /x\n  200\n    Body\n      %s\n",
+        "GET /x\n  200\n    Headers\n      %s\n    Body any\n", "URL /r\n  Protocol json-rpc-2.0\n  Method m\n    Params\n      %s\n",
+        "URL /r\n  Protocol json-rpc-2.0\n  Method m\n    Result\n      %s\n", "TYPE @w\n    %s\nGET /x\n  200 @w\n", "SERVER @s\n  BaseUrl \"https://{id}.x\"\n    %s\n",
+    ]
+    out = []
+    for tk, tdecl in types.items():
+        for r in refs:
+            for sl in slots:
+                for first in (True, False):
+                    body = sl % r
+                    out.append([("a.jst", J + (tdecl + body if first else body + tdecl))])
+    # single-parameter spellings of the same
+    for tk, tdecl in types.items():
+        for p in ("@t", "[@t]"):
+            for sl in ("GET /x\n  200 %s\n", "POST /x\n  Request %s\n  200 any\n", "GET /x\n  200\n    Body %s\n", "GET /x\n  Query %s\n  200 any\n",
+                       "GET /x\n  200\n    Headers %s\n    Body any\n", "URL /r\n  Protocol json-rpc-2.0\n  Method m\n    Params %s\n"):
+                out.append([("a.jst", J + tdecl + sl % p)])
+    return out
+
+
+def type_chain_projects(rng, quick):
+    """chains @t0 -> @t1 -> ... -> @tn with a semantic error deep inside the last one; intermediate types short, at the end
+    of the file, or alone in a short included file (a diagnostic position computed against the wrong body falls outside it)"""
+    J = "JSIGHT 0.3\n"
+    out = []
+    errs = ['"bad": 1 // {type: "string"}', '"bad": "x" // {min: 1}', '"bad": @nope', '"bad": 1 // {enum: @nope}', '"bad": 1, "bad": 2', '"bad": [1] // {minItems: "x"}',
+            '"bad": 1 // {or: ["@nope", "integer"]}', '"bad": 1.5 // {precision: 0}']
+    for n in ([2, 3, 4] if quick else [2, 3, 4, 6]):
+        for e in errs:
+            for layout in ("onefile", "include-mid", "reverse"):
+                pad = "".join('    "p%d": "some longer filler value %d",\n' % (i, i) for i in range(rng.randint(5, 40)))
+                last = "TYPE @t%d\n  {\n%s    %s\n  }\n" % (n, pad, e)
+                mids = ["TYPE @t%d\n  @t%d\n" % (i, i + 1) if i % 2 else 'TYPE @t%d\n  {"x": @t%d}\n' % (i, i + 1) for i in range(n)]
+                use = "GET /x\n  200 @t0\n"
+                if layout == "onefile":
+                    out.append([("a.jst", J + use + mids[0] + last + "".join(mids[1:]))])
+                elif layout == "reverse":
+                    out.append([("a.jst", J + last + "".join(reversed(mids)) + use)])
+                else:
+                    files = [("a.jst", J + use + mids[0] + last + "".join("INCLUDE m%d.jst\n" % i for i in range(1, n)))]
+                    files += [("m%d.jst" % i, mids[i]) for i in range(1, n)]
+                    out.append(files)
+    return out
+
+
 def classify(out):
     st, d = P.parse(out)
     msg = C.unhx(d.get("msg", "-")).decode("latin1") if "msg" in d else ""
@@ -124,6 +185,12 @@ def run(res, tier, seed, replay):
             projects.append([("a.jst", d)])
         for f in (rng.sample(files, 300) if quick else files):
             projects.append([("a.jst", open(f, "rb").read())])
+        sm = slot_matrix()
+        projects += sm
+        projects += type_chain_projects(rng, quick)
+        from . import c07 as M7
+        for items, n, what in M7.cycle_documents(rng, quick):
+            projects.append([("a.jst", M7.render(items)[0])])
     lines = [P.run_line("out=sha", pj) for pj in projects]
     # batches in separate processes; a batch that dies or overruns is re-run project by project
     outs = [None] * len(lines)
